@@ -9,14 +9,14 @@ import (
 )
 
 type FuncResult struct {
-	Key    string
-	VC     *VC
-	Trace  *Trace
-	Err    string // engine limitation / contract error: the function is then not claimed
-	Frame  *frame
-	Exec   *Exec
-	Res    []Val
-	Out    State
+	Key      string
+	VC       *VC
+	Trace    *Trace
+	Err      string // engine limitation / contract error: the function is then not claimed
+	Frame    *frame
+	Exec     *Exec
+	Res      []Val
+	Out      State
 	OutReach string
 }
 
@@ -110,7 +110,20 @@ func (x *Exec) entry(fn *ssa.Function) ([]Val, State) {
 }
 
 // verifyFunc generates the obligations of one function under contract.
+type RunOpts struct {
+	Trace  bool
+	Depth  int
+	Over   map[string]stdModel
+	Opaque map[string]bool
+	Setup  func(x *Exec) // extra declarations before execution
+}
+
 func (e *Engine) verifyFunc(key string, withTrace bool, maxDepth int) (fr *FuncResult) {
+	return e.verifyFuncOpts(key, RunOpts{Trace: withTrace, Depth: maxDepth})
+}
+
+func (e *Engine) verifyFuncOpts(key string, o RunOpts) (fr *FuncResult) {
+	withTrace, maxDepth := o.Trace, o.Depth
 	fr = &FuncResult{Key: key}
 	fn := e.funcs[key]
 	if fn == nil {
@@ -121,7 +134,7 @@ func (e *Engine) verifyFunc(key string, withTrace bool, maxDepth int) (fr *FuncR
 	vc := &VC{S: newScript(), ls: newLayouts(), mapFams: map[string]*mapFam{}, nonNil: map[string]bool{},
 		mem: map[string]*memNode{}, allocP: map[string][]string{}, bornLt: map[string]string{}, isAlloc: map[string]bool{}, allocAfter: map[string]string{}, distinct: map[[2]string]bool{}}
 	fr.VC = vc
-	x := &Exec{eng: e, vc: vc, top: fn, topC: ct, maxDepth: maxDepth, nonNil: vc.nonNil}
+	x := &Exec{eng: e, vc: vc, top: fn, topC: ct, maxDepth: maxDepth, nonNil: vc.nonNil, over: o.Over, opaque: o.Opaque}
 	fr.Exec = x
 	if withTrace {
 		x.trace = newTrace()
@@ -143,6 +156,9 @@ func (e *Engine) verifyFunc(key string, withTrace bool, maxDepth int) (fr *FuncR
 		}
 	}()
 	x.prelude()
+	if o.Setup != nil {
+		o.Setup(x)
+	}
 	args, st := x.entry(fn)
 	// preconditions
 	pre := &frame{fn: fn, c: ct, vals: map[ssa.Value]Val{}, entrySt: st.clone(), entryVals: args, top: true, dbg: map[string][]dbgRef{}}
